@@ -140,16 +140,28 @@ func C18Scenario() *Scenario {
 		}
 		gapAt := map[*Resource]time.Duration{} // when the watch of a resource was last cut by the scenario
 		var factory *dynamicinformer.SharedInformerFactory
+		var rm *dynamicdiscovery.ResourceMap
+		// in a quarter of the runs discovery does not know the Widget group-version at first
+		// (its document is unavailable): subscribing to it fails, and must leave nothing
+		// behind - once discovery has caught up, subscriptions to it live and die as any other
+		widgetKnown := true
+		refresh := time.Hour
+		if t.Pick(4, "late-discovery") == 3 {
+			widgetKnown = false
+			refresh = 20 * time.Second
+			w.DiscoveryDown = map[string]bool{ResWidget.Group + "/" + ResWidget.Version: true}
+			w.Cfg["lateDiscovery"] = "true"
+		}
 		var subs []*c18Sub
 		var handlers []*c18Handler
 		w.OnBoot = func(w *World) {
 			cfg := &rest.Config{Host: "http://apiserver.sim", Transport: &APITransport{W: w}, RateLimiter: flowcontrol.NewFakeAlwaysRateLimiter()}
-			rm := dynamicdiscovery.NewResourceMap(discovery.NewDiscoveryClientForConfigOrDie(cfg))
+			rm = dynamicdiscovery.NewResourceMap(discovery.NewDiscoveryClientForConfigOrDie(cfg))
 			dc, err := dynamicclientset.New(cfg, rm)
 			if err != nil {
 				panic(err)
 			}
-			rm.Start(time.Hour)
+			rm.Start(refresh)
 			for i := 0; !rm.HasSynced() && i < 200; i++ {
 				w.StepOnce(FairPolicy)
 			}
@@ -182,6 +194,9 @@ func C18Scenario() *Scenario {
 		// one operation, drawn from the tape
 		doOp := func(w *World) {
 			kinds := []string{"subscribe", "add-handler", "add-handler-resync", "remove-handlers", "close", "object-edit", "object-create", "object-delete", "advance", "add-handler-racing", "remove-handlers-racing", "close-racing", "subscribe-racing", "remove-handlers-midround", "object-delete-in-watch-gap"}
+			if !widgetKnown {
+				kinds = append(kinds, "discovery-back", "subscribe", "subscribe-racing")
+			}
 			op := kinds[t.Pick(len(kinds), "op")]
 			var open []*c18Sub
 			for _, s := range subs {
@@ -247,6 +262,11 @@ func C18Scenario() *Scenario {
 				ri2, err2 := factory.Resource(res.APIVersion(), res.Plural)
 				g1 := <-ch
 				for _, g := range []got{g1, {ri2, err2}} {
+					if g.err != nil && res == ResWidget && !widgetKnown {
+						w.Probe("c18:subscribe-to-undiscovered-resource-failed")
+						opLog = append(opLog, fmt.Sprintf("%d subscribe-racing %s failed (not discovered)", w.step, res.Kind))
+						continue
+					}
 					if g.err != nil {
 						w.Violation = &Violation{Prop: "HARNESS", Class: "subscribe-failed", Detail: g.err.Error()}
 						return
@@ -258,6 +278,11 @@ func C18Scenario() *Scenario {
 			case "subscribe":
 				res := resources[t.Pick(len(resources), "res")]
 				ri, err := factory.Resource(res.APIVersion(), res.Plural)
+				if err != nil && res == ResWidget && !widgetKnown {
+					w.Probe("c18:subscribe-to-undiscovered-resource-failed")
+					opLog = append(opLog, fmt.Sprintf("%d subscribe %s failed (not discovered)", w.step, res.Kind))
+					return
+				}
 				if err != nil {
 					w.Violation = &Violation{Prop: "HARNESS", Class: "subscribe-failed", Detail: err.Error()}
 					return
@@ -456,6 +481,18 @@ func C18Scenario() *Scenario {
 				opLog = append(opLog, fmt.Sprintf("%d object-delete-in-watch-gap %s/%s", w.step, res.Kind, name))
 			case "advance":
 				w.Sleep(time.Duration(1+t.Pick(40, "secs")) * time.Second)
+			case "discovery-back":
+				w.DiscoveryDown = nil
+				w.Sleep(refresh + time.Second)
+				for i := 0; rm.Get(ResWidget.APIVersion(), ResWidget.Plural) == nil && i < 300; i++ {
+					w.StepOnce(FairPolicy)
+				}
+				if rm.Get(ResWidget.APIVersion(), ResWidget.Plural) == nil {
+					w.Violation = &Violation{Prop: "HARNESS", Class: "discovery-did-not-catch-up", Detail: "the resource map still lacks widgets after a refresh period"}
+					return
+				}
+				widgetKnown = true
+				opLog = append(opLog, fmt.Sprintf("%d discovery-back", w.step))
 			}
 		}
 		// rest means: every resource somebody is subscribed to has its watch (again)
